@@ -416,6 +416,9 @@ extern size_t vf_dns_k;
 extern uint8_t vf_dns_old;
 #define VF_DNS_SNAP(hdr, cap)							\
 	__CPROVER_requires((hdr) == NULL || vf_dns_k >= (cap) || vf_dns_old == VF_DNS_U8(hdr, vf_dns_k))
+extern uint16_t vf_dns_qd_old;	/* ghost: QDCOUNT at entry (host order) */
+#define VF_DNS_SNAP_QD(hdr, cap)						\
+	__CPROVER_requires((hdr) == NULL || (cap) < VF_DNS_HDR_SIZE || vf_dns_qd_old == VF_DNS_QD(hdr))
 #define VF_DNS_PREFIX_KEPT(hdr, lim, cap)					\
 	(vf_dns_k >= (lim) || vf_dns_k >= (cap) || VF_DNS_U8(hdr, vf_dns_k) == vf_dns_old)
 #define VF_DNS_BUF(hdr, n)	((hdr) == NULL || __CPROVER_is_fresh((hdr), (n)))
@@ -456,6 +459,7 @@ __CPROVER_assigns(name_size_ret != NULL: *name_size_ret)
 __CPROVER_ensures(VF_RV == 0 || VF_RV == EINVAL || VF_RV == EOVERFLOW || VF_RV == EOPNOTSUPP)
 __CPROVER_ensures((offset < VF_DNS_HDR_SIZE || offset > msgbuf_size) ==> VF_RV == EINVAL)
 __CPROVER_ensures(VF_RV == 0 ==> (name_size_ret == NULL || *name_size_ret == VF_DNS_WIRE(name_len)))
+__CPROVER_ensures((VF_RV == EOVERFLOW && offset <= msgbuf_size) ==> VF_DNS_WIRE(name_len) > msgbuf_size - offset)
 __CPROVER_ensures(VF_RV == 0 ==> (VF_DNS_WIRE(name_len) <= msgbuf_size - offset &&
     VF_DNS_WIRE(name_len) <= VF_DNS_NAME_WIRE_MAX))
 /* nothing below the write position changes */
@@ -507,6 +511,7 @@ dns_msg_question_add(dns_hdr_p hdr, size_t msg_size, size_t msgbuf_size,
 __CPROVER_requires(name_len <= VF_DNS_MSG_MAX && msgbuf_size <= VF_DNS_MSG_MAX && msg_size <= VF_DNS_MSG_MAX)
 __CPROVER_requires(VF_DNS_BUF(hdr, msgbuf_size))
 VF_DNS_SNAP(hdr, msgbuf_size)
+VF_DNS_SNAP_QD(hdr, msgbuf_size)
 __CPROVER_requires(name == NULL || name_len == 0 || __CPROVER_is_fresh(name, name_len))
 __CPROVER_requires(VF_OUT_OPT(msg_size_ret, size_t))
 __CPROVER_assigns(hdr != NULL: __CPROVER_object_upto((uint8_t *)hdr, msgbuf_size))
@@ -527,10 +532,9 @@ __CPROVER_ensures(VF_RV == 0 ==> (
     VF_DNS_BE16(hdr, msg_size + VF_DNS_WIRE(name_len)) == query_type &&
     VF_DNS_BE16(hdr, msg_size + VF_DNS_WIRE(name_len) + 2) == query_class))
 /* QDCOUNT + 1 in network order; no other byte below msg_size changes (also on failure) */
-__CPROVER_ensures(VF_RV == 0 ==> VF_DNS_QD(hdr) == (size_t)(uint16_t)(__CPROVER_old(VF_DNS_QD(hdr)) + 1))
+__CPROVER_ensures(VF_RV == 0 ==> VF_DNS_QD(hdr) == (size_t)(uint16_t)(vf_dns_qd_old + 1))
 __CPROVER_ensures((hdr != NULL && vf_dns_k != 4 && vf_dns_k != 5) ==> VF_DNS_PREFIX_KEPT(hdr, msg_size, msgbuf_size))
-__CPROVER_ensures((hdr != NULL && VF_RV != 0 && msg_size >= 6) ==>
-    (VF_DNS_U8(hdr, 4) == __CPROVER_old(VF_DNS_U8(hdr, 4)) && VF_DNS_U8(hdr, 5) == __CPROVER_old(VF_DNS_U8(hdr, 5))))
+__CPROVER_ensures((hdr != NULL && VF_RV != 0 && msgbuf_size >= VF_DNS_HDR_SIZE) ==> VF_DNS_QD(hdr) == vf_dns_qd_old)
 ;
 
 /* append a resource record (the caller counts it with dns_hdr_an/ns/ar_inc) */
